@@ -61,6 +61,10 @@ EXPLANATION += (
     ' Round 5: the ABC front end keys its dataset -> output and dataset -> cells tables by the label as given (R-SAMEVAL/dataset-label-keys); settings are forwarded (R-FWD).'
 )
 
+EXPLANATION += (
+    ' Round 6: sums and CPM denominators are not cast back to the element type of the raw data (R-DTYPE).'
+)
+
 RULE_TEXT = (
     "one obligation per key of each producer, per required read, per "
     "merge loop, per statistic, per use of the row index")
@@ -93,6 +97,18 @@ def check(ctx):
     sweep_generic_rules(ctx, ('diff_exp.precompute',))
     # settings this property depends on are handed down every call
     # chain, never left to a callee's default (sa/rules/forwarding.py)
+    # computed values are not forced back into the element type of the
+    # raw data (sa/rules/idioms.py, R-DTYPE)
+    from ..rules.idioms import (check_narrowing_cast,
+                                check_inplace_float_store)
+    n_dt = 0
+    for fi_ in ctx.db.iter_functions():
+        if fi_.module.short.startswith(('cell_by_gene.', 'diff_exp.precompute', 'utils.stats_utils')):
+            n_dt += check_narrowing_cast(ctx, fi_)
+            n_dt += check_inplace_float_store(ctx, fi_)
+    ctx.ok('R-DTYPE/scan', 'normalisation and statistics modules', 'package',
+           'no computed value is cast to, or stored in place into, the '
+           'element type of the raw data', nontrivial=False)
     from ..rules.forwarding import check_forwarding
     check_forwarding(ctx, {'normalization', 'rows_at_a_time', 'n_processors', 'cell_set', 'gene_names', 'bad_row_idx'})
 
